@@ -324,6 +324,37 @@ pub async fn run_net(tok: &[&str]) -> String {
                         }
                     }
                 }
+                "C" => {
+                    // burst connect `C<k1>.<ip1>/<k2>.<ip2>/…`: every connection is initiated before the
+                    // server task runs again (the connects are spawned first and complete in the
+                    // listener's backlog), so the server finds them all queued at its next accept
+                    let items: Vec<(String, IpAddr)> = rest
+                        .split('/')
+                        .map(|x| {
+                            let (k, ip) = x.split_once('.').unwrap();
+                            (k.to_string(), ip.parse().unwrap())
+                        })
+                        .collect();
+                    let tasks: Vec<_> = items
+                        .iter()
+                        .map(|(_, ip)| tokio::spawn(connect_from(*ip, addr)))
+                        .collect();
+                    let mut streams = Vec::new();
+                    for t in tasks {
+                        streams.push(t.await.unwrap_or_else(|_| Err(std::io::Error::from(std::io::ErrorKind::Other))));
+                    }
+                    tokio::time::sleep(Duration::from_millis(SETTLE_MS)).await;
+                    for ((k, _), st) in items.into_iter().zip(streams) {
+                        match st {
+                            Err(_) => out.push(format!("c{k}:refused")),
+                            Ok(mut s) => {
+                                let st = probe(&mut s).await;
+                                out.push(format!("c{k}:{st}"));
+                                conns.insert(k, s);
+                            }
+                        }
+                    }
+                }
                 "h" => {
                     // the first five bytes of a request; `t<k>` sends the rest (a request cut in two
                     // segments, with other steps - a decode level change - in between)
